@@ -746,6 +746,12 @@ def _seq_elements(e: ast.AST, seqs: Dict[str, List[ast.AST]]) -> Optional[List[a
         if isinstance(g.target, ast.Name) and isinstance(e.elt, ast.Name) and e.elt.id == g.target.id:
             if all(isinstance(c, ast.Name) and c.id == g.target.id for c in g.ifs):
                 return _seq_elements(g.iter, seqs)
+    # (E(v) for v in X) over a known sequence X: one element per member, in order
+    if isinstance(e, (ast.ListComp, ast.GeneratorExp)) and len(e.generators) == 1 and not e.generators[0].ifs and isinstance(e.generators[0].target, ast.Name):
+        inner = _seq_elements(e.generators[0].iter, seqs)
+        if inner is not None:
+            v = e.generators[0].target.id
+            return [_SubstMany({v: x}).visit(clone(e.elt)) for x in inner]
     if isinstance(e, ast.Call) and isinstance(e.func, ast.Name) and e.func.id == "filter" and len(e.args) == 2:
         f0 = e.args[0]
         if (isinstance(f0, ast.Constant) and f0.value is None) or (isinstance(f0, ast.Name) and f0.id in ("bool", "len")):
@@ -884,12 +890,14 @@ def inline_helper_call(ctx: Ctx, f: Func, expr: Optional[ast.AST], depth: int = 
     if not isinstance(expr, ast.Call) or depth > 3:
         return expr
     m = callee_of_self_call(ctx, f, expr)
+    if m is None and isinstance(expr.func, ast.Name):
+        m = next((h_ for h_ in ctx.prog.funcs if h_.parent is f and h_.name == expr.func.id), None)
     if m is None:
         return expr
     body = _strip_doc(list(m.node.body))
     if len(body) != 1 or not isinstance(body[0], ast.Return) or body[0].value is None:
         return expr
-    binding = bind_call(m, expr, bound=True)
+    binding = bind_call(m, expr, bound=m.parent is None)
     if binding is None:
         return expr
     out = _SubstMany(binding).visit(clone(body[0].value))
@@ -925,3 +933,46 @@ def single_env(fn: ast.AST) -> Dict[str, ast.AST]:
         elif isinstance(n, ast.AnnAssign) and isinstance(n.target, ast.Name) and n.value is not None:
             val[n.target.id] = n.value
     return {k: v for k, v in val.items() if count.get(k) == 1}
+
+
+def per_item_unit(ctx: Ctx, f: Func):
+    """How a container setter converts one supplied item: (function, item variable, paths, anchor node, is_helper).
+
+    Either the body of the setter's first loop (each path = one trip through the body) or, when the conversion was
+    extracted, the non-raising value-returning paths of the helper applied per item:
+    `[self._conv(item) for item in items]`, a local `def _conv(item)`, or `for item in items: acc.append(self._conv(item))`.
+    None when neither shape is present."""
+    from ..pathsem import function_paths as _fp
+
+    cfg = ctx.cfg(f)
+    loops = [n for n in cfg.live if n.kind == "for"]
+
+    def helper_of(call: ast.AST, var: str) -> Optional[Func]:
+        if not (isinstance(call, ast.Call) and len(call.args) == 1 and not call.keywords and src(call.args[0]) == var):
+            return None
+        m = callee_of_self_call(ctx, f, call)
+        if m is None and isinstance(call.func, ast.Name):
+            m = next((h_ for h_ in ctx.prog.funcs if h_.parent is f and h_.name == call.func.id), None)
+        if m is None:
+            return None
+        n_own = len(m.params) - (1 if (m.cls is not None and m.parent is None and m.kind != "staticmethod") else 0)
+        return m if n_own == 1 else None
+
+    for n in own_nodes(f.node):
+        if isinstance(n, (ast.ListComp, ast.GeneratorExp)) and len(n.generators) == 1 and isinstance(n.generators[0].target, ast.Name) and not n.generators[0].ifs:
+            m = helper_of(n.elt, n.generators[0].target.id)
+            if m is not None:
+                hp = [pi.nodes for pi in _fp(ctx.cfg(m)) if not pi.raises and pi.ret is not None and not (isinstance(pi.ret, ast.Constant) and pi.ret.value is None)]
+                return (m, m.params[-1], hp, n, True)
+    if loops:
+        lp = loops[0]
+        var = src(lp.ast.target)
+        # loop whose body only appends the helper's result
+        body = [b for b in lp.ast.body if not (isinstance(b, ast.Expr) and isinstance(b.value, ast.Constant))]
+        if len(body) == 1 and isinstance(body[0], ast.Expr) and isinstance(body[0].value, ast.Call) and isinstance(body[0].value.func, ast.Attribute) and body[0].value.func.attr == "append" and body[0].value.args:
+            m = helper_of(body[0].value.args[0], var)
+            if m is not None:
+                hp = [pi.nodes for pi in _fp(ctx.cfg(m)) if not pi.raises and pi.ret is not None and not (isinstance(pi.ret, ast.Constant) and pi.ret.value is None)]
+                return (m, m.params[-1], hp, lp.ast, True)
+        return (f, var, [p_ for p_ in loop_body_paths(cfg, lp) if p_[-1][0] is lp], lp.ast, False)
+    return None
